@@ -540,7 +540,7 @@ func gen(r *Rng, tier string, emit func(string)) {
 			s2 := append([]byte{}, sig...)
 			h2 := h
 			p2 := pub
-			switch r.Intn(12) {
+			switch r.Intn(13) {
 			case 0: // negate s, flip recid bit 0 (the classic malleation)
 				copy(s2[32:64], b32(new(big.Int).Sub(eclib.N, ss)))
 				s2[64] ^= 1
@@ -569,6 +569,9 @@ func gen(r *Rng, tier string, emit func(string)) {
 				h2 = Hex(make([]byte, 32))
 			case 10: // random signature bytes
 				s2 = append(r.Bytes(64), byte(r.Intn(4)))
+			case 12: // r re-encoded as r + n (wraps for an ordinary r) with an arbitrary recovery id
+				copy(s2[0:32], b32(new(big.Int).Add(rr, eclib.N)))
+				s2[64] = byte(r.Intn(4))
 			case 11: // swap r and s
 				copy(s2[0:32], sig[32:64])
 				copy(s2[32:64], sig[0:32])
@@ -767,6 +770,25 @@ func gen(r *Rng, tier string, emit func(string)) {
 				if v >= 2 && keys[v^2] != nil {
 					emit("verify " + Hex(keys[v^2]) + " " + Hex(sig) + " " + h)
 				}
+			}
+			// re-encodings of r: textbook ECDSA requires 0 < r < n, so r + n (a field element below p here, naming the abscissa
+			// that recovery-id bit 1 selects), r = n and r = n + r' are not signatures at all, whatever the recovery id
+			rn := new(big.Int).Add(rr, eclib.N)
+			for w := 0; w < 4; w++ {
+				g := eclib.Sig65(rn, ss, w)
+				emit("pubfromsig " + Hex(g) + " " + h)
+				for v := 2; v < 4; v++ {
+					if keys[v] != nil && (w == v&1 || thorough || r.Chance(30)) {
+						emit("verify " + Hex(keys[v]) + " " + Hex(g) + " " + h)
+						emit("rawverify " + Hex(keys[v]) + " " + Hex(g[:64]) + " " + h)
+					}
+				}
+				if w < 2 {
+					emit("verifyrec " + Hex(g) + " " + h)
+				}
+			}
+			for _, rv := range []*big.Int{eclib.N, add(eclib.N, 1), add(eclib.P, -1), eclib.P} {
+				emit("pubfromsig " + Hex(eclib.Sig65(rv, ss, r.Intn(4))) + " " + h)
 			}
 		}
 	}
